@@ -619,7 +619,41 @@ func GenProgram(t *rapid.T, prof *Profile, doc Doc) *Program {
 	if prof.SoftHang {
 		p.Steps = append(p.Steps, &Step{ID: "slow", Kind: "plugin", In: []Field{F("a", Lit(int64(1))), F("mode", Lit("hang"))}})
 		o := &p.Outputs[0]
-		o.E.Fields = append(o.E.Fields, F("so_slow", Opt("soft-optional", StepRef("slow", "outputs", "success", "s"))))
+		soft := Opt("soft-optional", StepRef("slow", "outputs", "success", "s"))
+		var quick *Step
+		for _, s := range p.Steps {
+			if s.Kind == "plugin" && s.ID != "slow" {
+				quick = s
+				break
+			}
+		}
+		// where the reference sits must not matter: it never delays its consumer
+		switch rapid.IntRange(0, 4).Draw(t, "softhang_place") {
+		case 0:
+			o.E.Fields = append(o.E.Fields, F("so_slow", soft))
+		case 1:
+			// inside the object of a one-of option, next to a required part
+			if quick != nil {
+				o.E.Fields = append(o.E.Fields, F("rep", OneOf("kind", F("full", Obj(F("req", StepRef(quick.ID, "outputs", "success", "a")), F("opt", soft))))))
+			} else {
+				o.E.Fields = append(o.E.Fields, F("so_slow", soft))
+			}
+		case 2:
+			// nested in a list of objects
+			o.E.Fields = append(o.E.Fields, F("nest_slow", &Expr{K: "list", Items: []*Expr{Obj(F("n", Lit("k")), F("opt", soft))}}))
+		case 3:
+			// as the input of a step the output needs
+			c := &Step{ID: "softc", Kind: "plugin", In: []Field{F("a", Lit(int64(4))), F("o", soft)}}
+			p.Steps = append(p.Steps, c)
+			o.E.Fields = append(o.E.Fields, F("softc", StepRef("softc", "outputs", "success", "a")))
+		default:
+			// next to a one-of over the same quick step, both in one object
+			if quick != nil {
+				o.E.Fields = append(o.E.Fields, F("both", Obj(F("opt", soft), F("pick", OneOf("kind", F("ran", StepRef(quick.ID, "outputs", "success")), F("off", StepRef(quick.ID, "disabled", "output")))))))
+			} else {
+				o.E.Fields = append(o.E.Fields, F("so_slow", soft))
+			}
+		}
 	}
 	if prof.OnlyErrOutputs && len(p.Outputs) > 1 {
 		p.Outputs = p.Outputs[1:]
